@@ -93,6 +93,10 @@ class INSObserver(StandardObserver):
         d["crit"] = repr([float(c) for c in (ns.criterion or [])])
         d["thr"] = repr(float(ns.log_likelihood_threshold))
         d["evals"] = int(ns.model.likelihood_evaluations)
+        try:
+            d["ll_time"] = round(float(ns.model.likelihood_evaluation_time.total_seconds()), 4)
+        except Exception:  # noqa
+            d["ll_time"] = None
         return d
 
     # -- installation ------------------------------------------------------
